@@ -10,6 +10,8 @@ def resolve(path):
         ol=ours.split('\n')
         if ol and ol[0].strip()=='value = ownNilValue(value)' and 'ownNilValue' not in theirs:
             return ol[0]+'\n'+theirs
+        if ours.startswith('// ownNilValue replaces') and ours.rstrip().endswith('return value') and 'ownNilValue' not in theirs:
+            return ours+'}\n\n'+theirs
         if 'a bound module is another scope' in ours:
             ms=LINE.findall(theirs)
             if len(ms)==1:
